@@ -117,14 +117,28 @@ def pack(ctx, crate, E):
         if e[0] == "binop" and e[1] == "Ne" and _const(e[3]) == 0:
             e = strip_casts(e[2])
         mask = None
-        if e[0] == "binop" and e[1] == "BitAnd":
-            mask = _const(e[3])
-            e = strip_casts(e[2])
         got = 0
+        if e[0] == "binop" and e[1] == "BitAnd":
+            m_e = strip_casts(e[3])
+            if m_e[0] == "binop" and m_e[1] == "Shl" and _const(m_e[2]) is not None and _const(m_e[3]) is not None:
+                # `word & (m << s)`: a mask in place
+                mask = _const(m_e[2])
+                got = _const(m_e[3])
+                e = strip_casts(e[2])
+            else:
+                mask = _const(e[3])
+                e = strip_casts(e[2])
+                if mask is not None and mask != 0 and e[0] == "ap":
+                    # `word & CONST` with the constant already shifted
+                    low = (mask & -mask).bit_length() - 1
+                    if low > 0:
+                        got, mask = low, mask >> low
         if e[0] == "binop" and e[1] == "Shr":
             got = _const(e[3])
             e = strip_casts(e[2])
         base_ok = e[0] == "ap" and e[1].root == ("arg", 1)
+        if not base_ok or got is None:
+            raise EngineError("CHARPACK: the shape of %s() is not `(word >> s) & m` / `word & (m << s)`" % nm)
         w = width[nm]
         mask_ok = mask is None and sh + w == 32 or (mask is not None and mask == (1 << w) - 1) or \
             (mask is not None and mask.bit_length() <= w and (mask & (mask + 1)) == 0 and nm in ("invoke", "group"))
@@ -181,7 +195,12 @@ def cols(ctx, crate, E):
                 while work and len(seen) < 200:
                     x = work.pop()
                     pl = op_place(x)
-                    if pl is None or pl["l"] in seen:
+                    if pl is None:
+                        continue
+                    for pe in pl["p"]:
+                        if isinstance(pe, dict) and "ci" in pe and not pe.get("from_end"):
+                            slot_cols[k].add(pe["ci"])
+                    if pl["l"] in seen:
                         continue
                     seen.add(pl["l"])
                     for d in fa.defs().get(pl["l"], []):
@@ -208,6 +227,9 @@ def cols(ctx, crate, E):
                                 work.append(o2)
     want = {0: {0}, 1: {1}, 2: {2}, 3: {3}}
     names = ["category", "invoke", "group", "length"]
+    if any(not slot_cols[k] for k in range(4)):
+        raise EngineError("CHARCOLS: the columns behind %s could not be traced" %
+                          [names[k] for k in range(4) if not slot_cols[k]])
     for k in range(4):
         ok = slot_cols[k] == want[k]
         ctx.ob("CHARCOLS", "parse_char_category|%s" % names[k], ok, "%s:%s" % (f.file, f.line),
@@ -252,9 +274,25 @@ def idset(ctx, crate, E):
     S = Sym(E, fa)
     f = crate.fns[ps[0]]
     loc = "%s:%s" % (f.file, f.line)
-    firsts = [sorted(_names(t))[0] for b, t in fa.calls() if _names(t) & {"first", "last", "get", "nth", "index"}
-              and t["args"] and show(S.operand(t["args"][0])).startswith("arg1")]
-    ok1 = firsts == ["first"] or (firsts and firsts[0] == "first" and "last" not in firsts)
+    firsts = []
+    for b, t in fa.calls():
+        if _names(t) & {"first", "last", "get", "nth", "index"} and t["args"] and \
+                show(S.operand(t["args"][0])).startswith("arg1"):
+            nm = sorted(_names(t) & {"first", "last", "get", "nth", "index"})[0]
+            if nm in ("get", "nth", "index") and len(t["args"]) > 1:
+                k = op_const(t["args"][1])
+                nm = "first" if (k is not None and k.get("int") == 0) else "%s(%s)" % (nm, (k or {}).get("int", "?"))
+            firsts.append(nm)
+    for b in sorted(fa.live_blocks()):
+        t = fa.term(b)
+        if t["k"] == "assert" and t["msg"]["kind"] == "BoundsCheck":
+            o = fa.origin(t["msg"]["index"])
+            k = o[1] if o[0] == "const" else None
+            if k is not None and "int" in k:
+                firsts.append("first" if k["int"] == 0 else "index(%d)" % k["int"])
+    if not firsts:
+        raise EngineError("CHARSET: how encode_cate_info picks the primary category was not recognised")
+    ok1 = all(x == "first" for x in firsts[:1])
     ctx.ob("CHARSET", "encode_cate_info|primary-is-first", bool(ok1), loc,
            "the primary category of a range is the first category listed" if ok1 else
            "the primary category of a range is taken with %s: base id, INVOKE, GROUP and LENGTH come "
